@@ -48,7 +48,7 @@ def showSlot (s : Mhd.Nonce.Slot) : String :=
   s!"{s.nc}:{hex16 m}:{hexOfBytes (s.nonce.takeWhile (· != 0))}"
 
 def showArgs (args : List (List UInt8 × Option (List UInt8))) : String :=
-  if args.isEmpty then "-" else
+  if args.isEmpty then "none" else
   ",".intercalate (args.map fun kv =>
     match kv.2 with
     | none => hexOfBytes kv.1
